@@ -323,9 +323,9 @@ class Frame(Widget, WidgetContainerMixin, typing.Generic[BodyWidget, HeaderWidge
 
     def _contents_keys(self) -> list[Literal["header", "footer", "body"]]:
         keys = ["body"]
-        if self._header:
+        if self._header is not None:
             keys.append("header")
-        if self._footer:
+        if self._footer is not None:
             keys.append("footer")
         return keys
 
@@ -410,10 +410,10 @@ class Frame(Widget, WidgetContainerMixin, typing.Generic[BodyWidget, HeaderWidge
         (maxcol, maxrow) = size
         frows = hrows = 0
 
-        if self.header:
+        if self.header is not None:
             hrows = self.header.rows((maxcol,), self.focus_part == "header" and focus)
 
-        if self.footer:
+        if self.footer is not None:
             frows = self.footer.rows((maxcol,), self.focus_part == "footer" and focus)
 
         remaining = maxrow
@@ -588,18 +588,18 @@ class Frame(Widget, WidgetContainerMixin, typing.Generic[BodyWidget, HeaderWidge
         """
         Return an iterator over the positions in this Frame top to bottom.
         """
-        if self._header:
+        if self._header is not None:
             yield "header"
         yield "body"
-        if self._footer:
+        if self._footer is not None:
             yield "footer"
 
     def __reversed__(self) -> Iterator[Literal["footer", "body", "header"]]:
         """
         Return an iterator over the positions in this Frame bottom to top.
         """
-        if self._footer:
+        if self._footer is not None:
             yield "footer"
         yield "body"
-        if self._header:
+        if self._header is not None:
             yield "header"
